@@ -9,3 +9,5 @@ import CprocVerif.Props.C19
 import CprocVerif.Props.C20
 import CprocVerif.Props.C14
 import CprocVerif.Props.C05
+import CprocVerif.Props.C13
+import CprocVerif.Props.C18
